@@ -424,7 +424,8 @@ func (r *Runner) buildTx(tx M) (bz []byte, nmsgs int, viaExec bool, early *TxRes
 	if str(tx, "mode") == "amino" {
 		mode = signing.SignMode_SIGN_MODE_LEGACY_AMINO_JSON
 	}
-	bz, err = c.BuildTx(wrapped, required, keys, num(tx, "fee")*feeUnit, mode)
+	fee2 := sdk.NewCoin(denom2, c.Unit2.MulRaw(int64(num(tx, "fee2")))) // optional second fee coin (absent field = 0)
+	bz, err = c.BuildTx(wrapped, required, keys, num(tx, "fee")*feeUnit, mode, fee2)
 	if err != nil {
 		return nil, 0, false, nil, fmt.Errorf("build tx: %w", err)
 	}
